@@ -4,6 +4,7 @@ from __future__ import annotations
 import ast
 import math
 import pickle
+import itertools
 from fractions import Fraction as F
 
 from immutabledict import immutabledict
@@ -358,8 +359,30 @@ def workload(ctx):
             if k:
                 ctx.run("C13.compile", (e, [], False, rng.randrange(10**9)))   # nothing listed
             ctx.run("C13.ast", (e, rng.randrange(10**9)))
+        # the SAME constant (negative, float, bool) in several positions of one expression:
+        # sum term / product factor / call argument first, then power base, exponent, operand
+        # of a division or of a unary operator -- and the other way round
+        X_, Y_ = p.Variable("x"), p.Variable("y")
+        low = [lambda c, t: p.Sum((c, t)), lambda c, t: p.Sum((t, c)), lambda c, t: p.Product((c, t)),
+               lambda c, t: p.Sum((p.Product((c, Y_)), t)), lambda c, t: p.If(p.Comparison(X_, "<", c), c, t),
+               lambda c, t: p.Min((c, t))]
+        tight = [lambda c: p.Power(c, X_), lambda c: p.Power(X_, c), lambda c: p.Quotient(Y_, c),
+                 lambda c: p.FloorDiv(c, p.Sum((p.Power(X_, 2), 1))), lambda c: p.Remainder(c, 7),
+                 lambda c: p.Product((-1, p.Power(c, 2))), lambda c: p.Power(p.Power(c, 2), X_)]
+        consts = [-3, -1, -2.5, 2, True]
+        for i, (lo, ti, c) in enumerate(itertools.product(low, tight, consts)):
+            if not ctx.mine("repeated-constant"):
+                continue
+            for e in (lo(c, ti(c)), lo(ti(c), c) if lo is not low[4] else lo(c, ti(c))):
+                if not isinstance(e, p.Expression):
+                    continue
+                ctx.case(normal.typed_key(e), True, n=0)
+                ctx.count("repeated_constant_shapes")
+                ctx.run("C13.compile", (e, [], False, i))
+                ctx.run("C13.ast", (e, i))
         for k, v in tr.handlers().items():
             ctx.count("handler:" + k, v)
+    ctx.floor("repeated_constant_shapes", 100)
     ctx.floor("compiled", 2000)
     ctx.floor("compiled_calls", 10000)
     ctx.floor("ast_evals", 5000)
